@@ -1,3 +1,2 @@
-import BB.Driver.Util
-/-! Placeholder driver for C04 (replaced when the model is built). -/
-def main : IO Unit := BB.Driver.loop (fun (s : Unit) _ => (s, "unimplemented")) ()
+import BB.Driver.StoreCommon
+def main : IO Unit := BB.Driver.loop BB.Driver.StoreCommon.step {}
